@@ -369,13 +369,21 @@ def canaries(rep, m, fns, proved):
         rep.canary(name, bool(killed), ' || '.join(killed) if killed else 'every re-run obligation / stand-in still passes on the mutant')
 
 # ------------------------------------------------------------------------------------------------ run
+def resolution_obligations(rep):
+    """`the mode its recipe rule selected`: which rule that is, is decided by RecipeManager.get_quantization_configs -- its contract (last applicable rule over the ordered
+    view; an unsupported rule is skipped, not a stop) is re-generated and re-discharged here from the current source, not cited from C11"""
+    from props import C11 as _c11
+    from contracts import recipe as _recipe
+    from vlib import pyvc
+    pyvc.verify(rep, P, core.Fn(_c11.RM, 'RecipeManager.get_quantization_configs'), _recipe.GetConfigs(), fallback=lambda label: _c11.search(label, 2, 7))
+
 def run(rep):
     from props import graphcommon as gc
     t_start = time.time(); phases = {}
     def mark(name, t0): phases[name] = round(time.time() - t0, 1)
     # ---- pyvc first (fork pools before TensorFlow is loaded into this process)
     t0 = time.time(); pyvc_helpers(rep); mark('pyvc list helpers + no-quant op', t0)
-    t0 = time.time(); gc.dtype_tables(rep, P); gc.insert_obligations(rep, P); gc.performer_obligations(rep, P); gc.vertical_obligations(rep, P); mark('dtype tables + insert_quant / insert_dequant + vertical optimisation (graphcommon)', t0)
+    t0 = time.time(); gc.dtype_tables(rep, P); gc.insert_obligations(rep, P); gc.performer_obligations(rep, P); gc.vertical_obligations(rep, P); resolution_obligations(rep); mark('dtype tables + insert_quant / insert_dequant + vertical optimisation (graphcommon)', t0)
     from replay import c03_native as N
     t0 = time.time(); m = N.load(); mark('loading the real modules', t0)
     F = lambda rel, q: rep.fn(core.Fn(rel, q))
